@@ -46,7 +46,8 @@ MODULES = ["Spydr.Verilog.Model", "Spydr.Verilog.ModelElab", "Spydr.Verilog.Mode
            "Spydr.Verilog.RoundTripBody", "Spydr.Verilog.RoundTripHeader", "Spydr.Verilog.RoundTripDecls",
            "Spydr.Verilog.RoundTripModule", "Spydr.Verilog.RoundTripDesign", "Spydr.Verilog.RoundTripShape",
            "Spydr.Verilog.RoundTripStub", "Spydr.Verilog.RoundTripWriter", "Spydr.Verilog.RoundTripFirst",
-           "Spydr.Verilog.RoundTripSingle", "Spydr.Verilog.RoundTripBits"]
+           "Spydr.Verilog.RoundTripSingle", "Spydr.Verilog.RoundTripBits",
+           "Spydr.Verilog.RoundTripTrack", "Spydr.Verilog.RoundTripAst", "Spydr.Verilog.RoundTripView"]
 THEOREMS = {
     "C06": ["Spydr.Verilog.getWires_spec", "Spydr.Verilog.getWires_spec_single_all", "Spydr.Verilog.concat_spec",
             "Spydr.Verilog.connect_low_aligned", "Spydr.Verilog.connect_low_aligned_fresh",
@@ -67,7 +68,10 @@ THEOREMS = {
             "Spydr.Verilog.Elab.portDecl_stub", "Spydr.Verilog.Elab.fold_local", "Spydr.Verilog.Elab.elabModule_wshape",
             "Spydr.Verilog.Elab.exW_builds", "Spydr.Verilog.Elab.instantiate_first", "Spydr.Verilog.Elab.elabDesign_wsingle",
             "Spydr.Verilog.Elab.exWI_builds", "Spydr.Verilog.Elab.exprWires_bits", "Spydr.Verilog.Elab.buildW3_WF",
-            "Spydr.Verilog.Elab.instStep2_den", "Spydr.Verilog.Elab.row_roundtrip"],
+            "Spydr.Verilog.Elab.instStep2_den", "Spydr.Verilog.Elab.row_roundtrip",
+            "Spydr.Verilog.Elab.buildW3_cab", "Spydr.Verilog.Elab.buildW3_ports", "Spydr.Verilog.Elab.buildW3_PC",
+            "Spydr.Verilog.Elab.cables_view", "Spydr.Verilog.Elab.ports_view", "Spydr.Verilog.Elab.inst_view_step",
+            "Spydr.Verilog.Elab.c04_view", "Spydr.Verilog.Elab.c04_ast", "Spydr.Verilog.Elab.exNet_frag"],
 }
 
 
